@@ -138,8 +138,8 @@ def _append_part(run, jobs: Jobs, rep: Reporter, chunks: int, by_size: Dict[int,
     for tid, r in enumerate(results, 1):
         traces.append({"tid": tid, "ev": [{"op": "final", "nw": r["nw"], "nr": r["nr"], "lines": r["lines"]}]})
     # negative controls: torn line, swapped lines of one writer, lost line, duplicated line
-    base = results[-1]
-    ls = base["lines"]
+    base = {"nw": 3, "nr": 4}                      # synthetic well-formed file: 3 writers x 4 records, round-robin
+    ls = [[w, q, 1] for q in range(1, 5) for w in range(1, 4)]
     i1 = next(i for i, l in enumerate(ls) if l[0] == 1 and l[1] == 1)
     i2 = next(i for i, l in enumerate(ls) if l[0] == 1 and l[1] == 2)
     swapped = list(ls)
@@ -150,9 +150,12 @@ def _append_part(run, jobs: Jobs, rep: Reporter, chunks: int, by_size: Dict[int,
         -3: ("NoLossNoDuplication", ls[:7] + ls[8:]),
         -4: ("NoLossNoDuplication", ls[:4] + [ls[3]] + ls[4:]),
     }
+    traces.append({"tid": -5, "ev": [{"op": "final", "nw": 3, "nr": 4, "lines": ls}]})      # positive control
     for tid, (_c, lines) in controls.items():
         traces.append({"tid": tid, "ev": [{"op": "final", "nw": base["nw"], "nr": base["nr"], "lines": lines}]})
     v = run.validate_traces("LogAppendTrace", {"W": 1, "R": 1, "Chunks": 1}, traces, name="LogAppendTrace")
+    if v[-5][0] != "ok":
+        raise TLCError(f"positive control for LogAppendTrace rejected: {v[-5]}")
     for tid, (want, _l) in controls.items():
         if v[tid][0] != want:
             raise TLCError(f"negative control {tid} for LogAppendTrace got verdict {v[tid]}, expected {want}")
